@@ -33,7 +33,7 @@ def c06_units(tier):
     return [
         Unit("transition-table", ["c06.go"], "zzC06_Table", {}, bounds="all (from,to) state atoms; any claimant"),
         Unit("set-step", ["c06.go"], "zzC06_SetStep", {"loop": 12}, bounds="store of 2 items; one task in any (state,claimant) obeying the claim rule; every subset of {title,body,epic,claim,state} with arbitrary values; agent present or not"),
-    ]
+    ] + cmd_units("C06/", ["set-json", "set-flags", "set-body-stdin", "claim-id", "new-task-json", "new-task-flags", "new-task-body-stdin", "new-epic-json"])
 
 
 reg("C06", c06_units,
@@ -111,3 +111,35 @@ def c15_units(tier):
 reg("C15", c15_units,
     "bounded symbolic model checking of the observable formulation (todo work, nothing held => something ready) over every 4-item store ergo's own checks admit; split into stores whose combined waits-for relation is acyclic (must hold) and the rest (the cross-level cycle ergo admits today).",
     ["N=4 is the smallest universe exhibiting a cross-level cycle (2 tasks + 2 epics)"])
+
+
+# ---------------------------------------------------------------- command-level units (C10, C16, C06 share them)
+HSCMD = ["c06.go", "c07.go", "c08.go", "c09.go", "c14.go", "c10.go"]
+CMD_ENTRIES = [
+    ("set-json", "zzCmd_Set_JSON"), ("set-flags", "zzCmd_Set_Flags"), ("set-body-stdin", "zzCmd_Set_BodyStdin"),
+    ("claim-id", "zzCmd_Claim"), ("claim-oldest", "zzCmd_ClaimOldest"),
+    ("new-task-json", "zzCmd_NewTask_JSON"), ("new-task-flags", "zzCmd_NewTask_Flags"), ("new-task-body-stdin", "zzCmd_NewTask_BodyStdin"),
+    ("new-epic-json", "zzCmd_NewEpic_JSON"), ("new-epic-flags", "zzCmd_NewEpic_Flags"), ("new-epic-body-stdin", "zzCmd_NewEpic_BodyStdin"),
+    ("sequence", "zzCmd_Sequence"), ("prune", "zzCmd_Prune"),
+]
+CMD_BOUNDS = "store of 2 items + 1 pruned id obeying I1-I5; every GlobalOptions field symbolic (flags, --json, --quiet, --agent), stdin document with every field present/absent, parse error or not; lock busy or free at every attempt"
+
+
+def cmd_units(prefixes, names=None):
+    out = []
+    for n, e in CMD_ENTRIES:
+        if names and n not in names:
+            continue
+        f = dict(STUB)
+        f["only"] = prefixes
+        out.append(Unit(n, HSCMD, e, f, bounds=CMD_BOUNDS))
+    return out
+
+
+reg("C10", lambda tier: cmd_units("C10/"),
+    "bounded symbolic model checking of every mutating RunX entry point (all input modes) over a symbolic store: on every path that returns an error, the list of events handed to appendEvents/replace is empty; on success only the addressed item changes. One process, no crash.",
+    ["L1 world stubs (symbolic store; ParseTaskInput yields an arbitrary TaskInput or a parse error; validateResultPath / captureResultEvidence succeed or fail symbolically)", "plan and compact are covered by C11 / C05"])
+
+reg("C16", lambda tier: cmd_units("C16/"),
+    "bounded symbolic model checking of the --json discipline: every stdout/stderr write of the real RunX functions is an output event; on success with --json exactly one JSON value and no text reaches stdout, on failure at most one JSON value and (with --json) no text.",
+    ["output calls (fmt.Print*, writeJSON) are modelled as events; the cmd layer (exitErr -> stderr, exit code) is outside the claim", "truth of the reported fields: see DESIGN (new-task reply vs post-state)"])
